@@ -10,9 +10,11 @@
 //                rtrees    random trees with lo..hi nodes, random re-rootings, sampled pairs / subsets
 //                hist      random histories mixing edits and queries (invalid graphs arise)
 //                cachewalk query / one edit of every kind (incl. refusals) / query, from random valid trees
+//                copies    copies of the graph container (independent) and of the observer (views), edits on either side
 //                probe     one scenario per known finding
 // modes (dag):   digraphs  all digraphs on 1..maxn labelled nodes
 //                dhist     random digraphs / histories
+//                dcopies   copies of the DAG container and of its observer
 // steering flags (known-finding triggers are left out of the main scenarios):
 //   --dups 0|1      second link on an existing relation
 //   --uedit 0|1     unlink / delete in un-rooted (undirected) mode
@@ -183,6 +185,22 @@ template<class ObsT, bool IsTree> struct Harness
     emit(o);
   }
 
+  // nodes made on the graph itself (setOutGroup, a copied graph) get a node object so that
+  // later calls through the observer can name them
+  void adoptNewNodes()
+  {
+    call([&]() {
+      for (auto n : obs->getGraph()->getAllNodes())
+        if (!const_cast<const ObsT&>(*obs).getNodeFromGraphid(n))
+        {
+          auto o = std::make_shared<std::string>("g" + std::to_string(n));
+          obs->associateNode(o, n);
+          if (N.size() <= n) N.resize(n + 1, ghost);
+          N[n] = o;
+        }
+    });
+  }
+
   // ---- edits shared by both containers
   long createNode()
   {
@@ -323,19 +341,6 @@ struct TreeH : Harness<TreeObs, true>
     std::string r = call([&]() { obs->getGraph()->setOutGroup(static_cast<Graph::NodeId>(g)); });
     adoptNewNodes();
     ev("SetOutGroup", Arr().add(g), r);
-  }
-  void adoptNewNodes()
-  {
-    call([&]() {
-      for (auto n : obs->getGraph()->getAllNodes())
-        if (!const_cast<const TreeObs&>(*obs).getNodeFromGraphid(n))
-        {
-          auto o = std::make_shared<std::string>("g" + std::to_string(n));
-          obs->associateNode(o, n);
-          if (N.size() <= n) N.resize(n + 1, ghost);
-          N[n] = o;
-        }
-    });
   }
   void removeSons(long n)
   {
@@ -919,6 +924,123 @@ static void modeRTrees(size_t count, size_t lo, size_t hi, vt::Rng& rng)
   }
 }
 
+// one random step of a history: an edit (valid or not) or a query
+static void histStep(TreeH& h, vt::Rng& rng, size_t& created, size_t maxNodes)
+{
+  size_t total = created + 1; // ids 0..created (the last one never existed)
+  long a = static_cast<long>(rng.below(total)), b = static_cast<long>(rng.below(total));
+  if (rng.chance(9, 10) && !h.nodes.empty())
+  { // mostly existing nodes
+    a = h.nodes[rng.below(h.nodes.size())];
+    b = h.nodes[rng.below(h.nodes.size())];
+  }
+  long o = rng.chance(1, 3) ? (rng.chance(3, 4) ? h.freeObj() : static_cast<long>(1 + rng.below(4))) : 0;
+  bool undirected = !h.d;
+  bool absent = !h.hasNode(a) || !h.hasNode(b);
+  // drift towards valid trees now and then (a stale cache can only show when the answer was "valid"):
+  // hang a node the root does not reach below one it reaches
+  if (!undirected && h.hasNode(h.root) && !h.looksTree() && rng.chance(1, 4))
+  {
+    std::set<unsigned> rs = h.reach(h.root, true);
+    std::vector<unsigned> in(rs.begin(), rs.end()), outside;
+    for (auto n : h.nodes)
+      if (!rs.count(n)) outside.push_back(n);
+    if (!outside.empty())
+    {
+      h.setFather(outside[rng.below(outside.size())], in[rng.below(in.size())], 0);
+      return;
+    }
+  }
+  switch (rng.below(16))
+  {
+  case 0:
+  case 1:
+    if (created < maxNodes)
+    {
+      h.createNode();
+      ++created;
+    }
+    break;
+  case 2:
+  case 3:
+    if (!F.dups && !absent && h.related(a, b, h.d)) break;
+    if (rng.coin()) h.addSon(a, b, F.eobj ? o : 0);
+    else h.link(a, b, o);
+    break;
+  case 4:
+  case 5:
+    if (undirected) break; // "in a rooted tree"
+    if (!F.eobj) o = 0;
+    h.setFather(a, b, o);
+    break;
+  case 6:
+    if (undirected && !F.uedit) break;
+    if (rng.coin()) h.removeSon(a, b);
+    else h.unlink(a, b);
+    break;
+  case 7:
+    if (undirected && !F.uedit) break;
+    if (rng.chance(1, 2)) h.deleteNode(a);
+    break;
+  case 8:
+    h.setRoot(a);
+    break;
+  case 9:
+  case 10:
+    if (undirected && !F.unroot) break;
+    h.rootAt(a);
+    break;
+  case 11:
+    if (!F.unroot) break;
+    {
+      bool join = rng.chance(1, 3);
+      if (join)
+      { // stay inside the cases the statement covers
+        if (!h.hasNode(h.root)) break;
+        std::vector<unsigned> s = h.outOf(h.root, h.d);
+        if (s.size() == 2 && (s[0] == s[1] || h.related(s[0], s[1], false))) break;
+        if (h.d && h.reciprocal()) break;
+        bool loop = false;
+        for (auto x : s) loop = loop || x == (unsigned)h.root;
+        if (loop) break;
+      }
+      h.unRoot(join);
+    }
+    break;
+  case 12:
+  case 13:
+    h.qValid();
+    break;
+  case 14:
+    if (rng.chance(1, 3))
+    {
+      if (F.outgroup && created < maxNodes + 2)
+      {
+        h.setOutGroup(a);
+        created = h.N.size();
+      }
+    }
+    else if (rng.chance(1, 2))
+    {
+      if (!undirected || F.uedit) h.removeSons(a);
+    }
+    else if (!h.nodes.empty() && (h.d || !h.looksTree())) h.qSub(h.nodes[rng.below(h.nodes.size())]);
+    break;
+  default:
+    if (h.d && h.looksTree())
+    {
+      if (rng.coin()) h.battery(rng, false, 6);
+      else
+      {
+        h.qFather(h.nodes);
+        h.qSons(h.nodes);
+      }
+    }
+    else
+      h.qRooted();
+  }
+}
+
 // random histories: edits (valid or not) and queries in any order
 static void modeHist(size_t count, size_t len, size_t maxNodes, vt::Rng& rng)
 {
@@ -935,121 +1057,7 @@ static void modeHist(size_t count, size_t len, size_t maxNodes, vt::Rng& rng)
       h.build(randomParents(n, rng), randomLabels(n, rng), rng, true, unrooted);
       created = n;
     }
-    for (size_t step = 0; step < len; ++step)
-    {
-      size_t total = created + 1; // ids 0..created (the last one never existed)
-      long a = static_cast<long>(rng.below(total)), b = static_cast<long>(rng.below(total));
-      if (rng.chance(9, 10) && !h.nodes.empty())
-      { // mostly existing nodes
-        a = h.nodes[rng.below(h.nodes.size())];
-        b = h.nodes[rng.below(h.nodes.size())];
-      }
-      long o = rng.chance(1, 3) ? (rng.chance(3, 4) ? h.freeObj() : static_cast<long>(1 + rng.below(4))) : 0;
-      bool undirected = !h.d;
-      bool absent = !h.hasNode(a) || !h.hasNode(b);
-      // drift towards valid trees now and then (a stale cache can only show when the answer was "valid"):
-      // hang a node the root does not reach below one it reaches
-      if (!undirected && h.hasNode(h.root) && !h.looksTree() && rng.chance(1, 4))
-      {
-        std::set<unsigned> rs = h.reach(h.root, true);
-        std::vector<unsigned> in(rs.begin(), rs.end()), outside;
-        for (auto n : h.nodes)
-          if (!rs.count(n)) outside.push_back(n);
-        if (!outside.empty())
-        {
-          h.setFather(outside[rng.below(outside.size())], in[rng.below(in.size())], 0);
-          continue;
-        }
-      }
-      switch (rng.below(16))
-      {
-      case 0:
-      case 1:
-        if (created < maxNodes)
-        {
-          h.createNode();
-          ++created;
-        }
-        break;
-      case 2:
-      case 3:
-        if (!F.dups && !absent && h.related(a, b, h.d)) break;
-        if (rng.coin()) h.addSon(a, b, F.eobj ? o : 0);
-        else h.link(a, b, o);
-        break;
-      case 4:
-      case 5:
-        if (undirected) break; // "in a rooted tree"
-        if (!F.eobj) o = 0;
-        h.setFather(a, b, o);
-        break;
-      case 6:
-        if (undirected && !F.uedit) break;
-        if (rng.coin()) h.removeSon(a, b);
-        else h.unlink(a, b);
-        break;
-      case 7:
-        if (undirected && !F.uedit) break;
-        if (rng.chance(1, 2)) h.deleteNode(a);
-        break;
-      case 8:
-        h.setRoot(a);
-        break;
-      case 9:
-      case 10:
-        if (undirected && !F.unroot) break;
-        h.rootAt(a);
-        break;
-      case 11:
-        if (!F.unroot) break;
-        {
-          bool join = rng.chance(1, 3);
-          if (join)
-          { // stay inside the cases the statement covers
-            if (!h.hasNode(h.root)) break;
-            std::vector<unsigned> s = h.outOf(h.root, h.d);
-            if (s.size() == 2 && (s[0] == s[1] || h.related(s[0], s[1], false))) break;
-            if (h.d && h.reciprocal()) break;
-            bool loop = false;
-            for (auto x : s) loop = loop || x == (unsigned)h.root;
-            if (loop) break;
-          }
-          h.unRoot(join);
-        }
-        break;
-      case 12:
-      case 13:
-        h.qValid();
-        break;
-      case 14:
-        if (rng.chance(1, 3))
-        {
-          if (F.outgroup && created < maxNodes + 2)
-          {
-            h.setOutGroup(a);
-            created = h.N.size();
-          }
-        }
-        else if (rng.chance(1, 2))
-        {
-          if (!undirected || F.uedit) h.removeSons(a);
-        }
-        else if (!h.nodes.empty() && (h.d || !h.looksTree())) h.qSub(h.nodes[rng.below(h.nodes.size())]);
-        break;
-      default:
-        if (h.d && h.looksTree())
-        {
-          if (rng.coin()) h.battery(rng, false, 6);
-          else
-          {
-            h.qFather(h.nodes);
-            h.qSons(h.nodes);
-          }
-        }
-        else
-          h.qRooted();
-      }
-    }
+    for (size_t step = 0; step < len; ++step) histStep(h, rng, created, maxNodes);
     h.qValid();
   }
 }
@@ -1208,6 +1216,74 @@ static void modeDigraphs(size_t maxn, size_t loopsUpTo, vt::Rng& rng)
   }
 }
 
+static void dhistStep(DagH& h, vt::Rng& rng, size_t& created, size_t maxNodes)
+{
+  size_t total = created + 1;
+  long a = static_cast<long>(rng.below(total)), b = static_cast<long>(rng.below(total));
+  if (rng.chance(9, 10) && !h.nodes.empty())
+  {
+    a = h.nodes[rng.below(h.nodes.size())];
+    b = h.nodes[rng.below(h.nodes.size())];
+  }
+  bool absent = !h.hasNode(a) || !h.hasNode(b);
+  switch (rng.below(12))
+  {
+  case 0:
+  case 1:
+    if (created < maxNodes)
+    {
+      h.createNode();
+      ++created;
+    }
+    break;
+  case 2:
+  case 3:
+  case 4:
+    if (rng.chance(1, 4) && a > b) std::swap(a, b);
+    if (!F.dups && !absent && h.related(a, b, true)) break;
+    {
+      long o = rng.chance(1, 3) ? (rng.chance(3, 4) ? h.freeObj() : static_cast<long>(1 + rng.below(4))) : 0;
+      switch (rng.below(3))
+      {
+      case 0:
+        h.addSon(a, b, o);
+        break;
+      case 1:
+        h.addFather(b, a, o);
+        break;
+      default:
+        h.link(a, b, o);
+      }
+    }
+    break;
+  case 5:
+    if (rng.coin()) h.removeSon(a, b);
+    else h.removeFather(b, a);
+    break;
+  case 6:
+    if (rng.coin()) h.deleteNode(a);
+    else h.unlink(a, b);
+    break;
+  case 7:
+  case 8:
+    h.qValid();
+    break;
+  case 9:
+    h.qRooted();
+    break;
+  case 10:
+    if (F.dagroot && rng.coin())
+    {
+      if (!h.hasNode(a) || h.orientable(a)) h.rootAt(a);
+    }
+    else if (!h.nodes.empty()) h.qBelow(h.nodes[rng.below(h.nodes.size())]);
+    break;
+  default:
+    h.qFathers();
+    if (h.looksAcyclic()) h.qLeaves();
+  }
+}
+
 static void modeDHist(size_t count, size_t len, size_t maxNodes, vt::Rng& rng)
 {
   for (size_t k = 0; k < count; ++k)
@@ -1237,74 +1313,334 @@ static void modeDHist(size_t count, size_t len, size_t maxNodes, vt::Rng& rng)
     DagH h;
     h.reset(true);
     size_t created = 0;
-    for (size_t step = 0; step < len; ++step)
+    for (size_t step = 0; step < len; ++step) dhistStep(h, rng, created, maxNodes);
+    h.battery();
+  }
+}
+
+// ------------------------------------------------------------------ several containers: copies and views
+// Copies of the graph container (copy construction, assignment) are independent containers; a copy
+// of the observer (copy construction, clone, assignment) is a second view on the same graph.
+template<class H, class ObsT> struct Multi
+{
+  typedef typename std::remove_reference<decltype(*std::declval<ObsT&>().getGraph())>::type GraphT;
+  std::vector<std::unique_ptr<H>> hs;
+  std::vector<size_t> created;
+  std::unique_ptr<ObsT> view; // on container 0
+  size_t cur;
+  Multi() : cur(0) {}
+  void sw(size_t i)
+  {
+    if (i == cur) return;
+    Obj o;
+    o.kv("e", "Switch").kv("to", (long long)i);
+    vt::tracer().emit(o);
+    cur = i;
+  }
+  void watchOthers()
+  {
+    for (size_t i = 0; i < hs.size(); ++i)
     {
-      size_t total = created + 1;
-      long a = static_cast<long>(rng.below(total)), b = static_cast<long>(rng.below(total));
-      if (rng.chance(9, 10) && !h.nodes.empty())
-      {
-        a = h.nodes[rng.below(h.nodes.size())];
-        b = h.nodes[rng.below(h.nodes.size())];
-      }
-      bool absent = !h.hasNode(a) || !h.hasNode(b);
-      switch (rng.below(12))
+      if (i == cur) continue;
+      Obj o;
+      o.kv("e", "Watch").kv("obj", (long long)i);
+      std::string r = call([&]() { o.kv("s", hs[i]->project()); });
+      if (r != "ok") o.kv("s", "unreadable");
+      vt::tracer().emit(o);
+    }
+  }
+  void copyCtor(size_t src)
+  {
+    sw(src);
+    std::unique_ptr<H> h2(new H);
+    std::string r = call([&]() {
+      auto g2 = std::make_shared<GraphT>(*hs[src]->obs->getGraph());
+      h2->obs.reset(new ObsT(g2));
+    });
+    if (r != "ok") return;
+    h2->adoptNewNodes();
+    Obj o;
+    o.kv("e", "Copy").kv("src", (long long)src).kv("dst", (long long)hs.size()).kv("how", "ctor");
+    call([&]() { o.kv("s", h2->project()); });
+    vt::tracer().emit(o);
+    created.push_back(h2->N.size());
+    hs.push_back(std::move(h2));
+  }
+  void assign(size_t src, size_t dst)
+  {
+    sw(src);
+    if (dst == 0) view.reset(); // a view is not told that its graph was overwritten
+    H& t = *hs[dst];
+    // either the container's own operator= or the one of its graph base class (GlobalGraph& = ...)
+    bool viaBase = (g_scen + src + dst) % 3 == 0;
+    std::string r = call([&]() {
+      if (viaBase) static_cast<GlobalGraph&>(*t.obs->getGraph()) = *hs[src]->obs->getGraph();
+      else *t.obs->getGraph() = *hs[src]->obs->getGraph();
+    });
+    call([&]() { // a new observer for the overwritten container (the former one knows former ids only)
+      auto g = t.obs->getGraph();
+      t.obs.reset();
+      t.obs.reset(new ObsT(g));
+      t.N.clear();
+    });
+    t.adoptNewNodes();
+    Obj o;
+    o.kv("e", "Copy").kv("src", (long long)src).kv("dst", (long long)dst).kv("how", "assign").kv("base", viaBase).kv("r", r);
+    call([&]() { o.kv("s", t.project()); });
+    vt::tracer().emit(o);
+    created[dst] = t.N.size();
+  }
+  void makeView(vt::Rng& rng)
+  {
+    sw(0);
+    view.reset();
+    call([&]() {
+      switch (rng.below(3))
       {
       case 0:
+        view.reset(new ObsT(*hs[0]->obs));
+        break;
       case 1:
-        if (created < maxNodes)
-        {
-          h.createNode();
-          ++created;
-        }
-        break;
-      case 2:
-      case 3:
-      case 4:
-        if (rng.chance(1, 4) && a > b) std::swap(a, b);
-        if (!F.dups && !absent && h.related(a, b, true)) break;
-        {
-          long o = rng.chance(1, 3) ? (rng.chance(3, 4) ? h.freeObj() : static_cast<long>(1 + rng.below(4))) : 0;
-          switch (rng.below(3))
-          {
-          case 0:
-            h.addSon(a, b, o);
-            break;
-          case 1:
-            h.addFather(b, a, o);
-            break;
-          default:
-            h.link(a, b, o);
-          }
-        }
-        break;
-      case 5:
-        if (rng.coin()) h.removeSon(a, b);
-        else h.removeFather(b, a);
-        break;
-      case 6:
-        if (rng.coin()) h.deleteNode(a);
-        else h.unlink(a, b);
-        break;
-      case 7:
-      case 8:
-        h.qValid();
-        break;
-      case 9:
-        h.qRooted();
-        break;
-      case 10:
-        if (F.dagroot && rng.coin())
-        {
-          if (!h.hasNode(a) || h.orientable(a)) h.rootAt(a);
-        }
-        else if (!h.nodes.empty()) h.qBelow(h.nodes[rng.below(h.nodes.size())]);
+        view.reset(hs[0]->obs->clone());
         break;
       default:
-        h.qFathers();
-        if (h.looksAcyclic()) h.qLeaves();
+        view.reset(make(static_cast<ObsT*>(nullptr), true));
+        *view = *hs[0]->obs;
+      }
+    });
+  }
+};
+
+static void qViewTree(Multi<TreeH, TreeObs>& m, bool fresh)
+{
+  if (!m.view) return;
+  m.sw(0);
+  const TreeObs& cv = *m.view;
+  TreeH& h = *m.hs[0];
+  Obj o;
+  bool v = false, d = false;
+  std::string r = call([&]() { v = cv.isValid(); });
+  call([&]() { d = cv.isRooted(); });
+  Arr eo, rows;
+  call([&]() {
+    for (auto e : cv.getGraph()->getAllEdges())
+    {
+      auto x = cv.getEdgeFromGraphid(e);
+      if (x) eo.add(Arr().add((long long)e).add((long long)*x));
+    }
+  });
+  bool structural = h.d && h.looksTree();
+  Arr known;
+  for (auto n : h.nodes)
+  {
+    std::vector<unsigned> sons, lv;
+    long f = -1;
+    auto no = cv.getNodeFromGraphid(n);
+    if (!no) continue; // made after the view was: the view has no object for it
+    known.add((long long)n);
+    if (structural)
+    {
+      call([&]() { for (auto& x : cv.getSons(no)) sons.push_back(cv.getNodeGraphid(x)); });
+      call([&]() { f = static_cast<long>(cv.getNodeGraphid(cv.getFatherOfNode(no))); });
+      if (call([&]() { for (auto& x : cv.getLeavesUnderNode(no)) lv.push_back(cv.getNodeGraphid(x)); }) != "ok") lv.assign(1, 999999);
+    }
+    rows.add(Arr().add((long long)n).add(arrU(sons)).add(f).add(arrU(lv)));
+  }
+  o.kv("e", "QView").kv("v", r == "ok" ? (v ? "T" : "F") : r).kv("d", d ? "T" : "F").kv("fresh", fresh).kv("eo", eo).kv("known", known).kv("rows", rows);
+  h.emit(o);
+}
+
+static void qViewDag(Multi<DagH, DagObs>& m, bool fresh)
+{
+  if (!m.view) return;
+  m.sw(0);
+  const DagObs& cv = *m.view;
+  DagH& h = *m.hs[0];
+  Obj o;
+  bool v = false;
+  std::string r = call([&]() { v = cv.isValid(); });
+  Arr eo, rows;
+  call([&]() {
+    for (auto e : cv.getGraph()->getAllEdges())
+    {
+      auto x = cv.getEdgeFromGraphid(e);
+      if (x) eo.add(Arr().add((long long)e).add((long long)*x));
+    }
+  });
+  Arr known;
+  for (auto n : h.nodes)
+  {
+    std::vector<unsigned> sons, fs;
+    auto no = cv.getNodeFromGraphid(n);
+    if (!no) continue;
+    known.add((long long)n);
+    call([&]() { for (auto& x : cv.getSons(no)) sons.push_back(cv.getNodeGraphid(x)); });
+    call([&]() { for (auto& x : cv.getFathers(no)) fs.push_back(cv.getNodeGraphid(x)); });
+    rows.add(Arr().add((long long)n).add(arrU(sons)).add(arrU(fs)));
+  }
+  o.kv("e", "QView").kv("v", r == "ok" ? (v ? "T" : "F") : r).kv("fresh", fresh).kv("eo", eo).kv("known", known).kv("rows", rows);
+  h.emit(o);
+}
+
+// an edit made through the view (no edge object): the original container must show it
+template<class M> static void editViaView(M& m, vt::Rng& rng)
+{
+  if (!m.view) return;
+  m.sw(0);
+  auto& h = *m.hs[0];
+  if (h.nodes.empty()) return;
+  unsigned a = h.nodes[rng.below(h.nodes.size())], b = h.nodes[rng.below(h.nodes.size())];
+  const auto& cv = *m.view;
+  auto oa = cv.getNodeFromGraphid(a), ob = cv.getNodeFromGraphid(b);
+  switch (rng.below(3))
+  {
+  case 0:
+    if (!oa) return;
+    h.ev("DeleteNode", Arr().add((long long)a), call([&]() { m.view->deleteNode(oa); }));
+    break;
+  case 1:
+    if (!oa || !ob) return;
+    h.ev("Unlink", Arr().add((long long)a).add((long long)b), call([&]() { m.view->unlink(oa, ob); }));
+    break;
+  default:
+    if (!oa || !ob) return;
+    if (!F.dups && h.related(a, b, h.d)) return;
+    h.ev("Link", Arr().add((long long)a).add((long long)b).add(0), call([&]() { m.view->link(oa, ob); }));
+  }
+}
+
+static void modeCopies(size_t count, vt::Rng& rng)
+{
+  for (size_t k = 0; k < count; ++k)
+  {
+    Multi<TreeH, TreeObs> m;
+    m.hs.emplace_back(new TreeH);
+    TreeH& h0 = *m.hs[0];
+    bool unrooted = F.unroot && rng.chance(1, 6);
+    h0.reset(!unrooted);
+    size_t n = 2 + rng.below(4);
+    h0.build(randomParents(n, rng), randomLabels(n, rng), rng, true, unrooted);
+    m.created.push_back(n);
+    switch (rng.below(3)) // copy with a filled or an empty cache
+    {
+    case 0:
+      h0.qValid();
+      break;
+    case 1:
+      if (h0.d || !h0.looksTree()) h0.qSub(h0.nodes[rng.below(h0.nodes.size())]);
+      break;
+    default:
+      break;
+    }
+    m.copyCtor(0);
+    if (rng.coin())
+    {
+      m.makeView(rng);
+      qViewTree(m, true);
+    }
+    for (size_t step = 0; step < 16; ++step)
+    {
+      size_t r = rng.below(12);
+      if (r == 0 && m.hs.size() < 3) m.copyCtor(rng.below(m.hs.size()));
+      else if (r == 1 && m.hs.size() >= 2)
+      {
+        size_t src = rng.below(m.hs.size()), dst = rng.below(m.hs.size());
+        if (src != dst) m.assign(src, dst);
+      }
+      else if (r == 2) qViewTree(m, false);
+      else if (r == 3)
+      {
+        if (!m.hs[0]->d && !F.uedit) continue;
+        editViaView(m, rng);
+        m.watchOthers();
+        qViewTree(m, false);
+      }
+      else if (r == 4 && !m.view)
+      {
+        m.makeView(rng);
+        qViewTree(m, true);
+      }
+      else
+      {
+        size_t i = rng.below(m.hs.size());
+        m.sw(i);
+        histStep(*m.hs[i], rng, m.created[i], 5);
+        m.watchOthers();
       }
     }
-    h.battery();
+    for (size_t i = 0; i < m.hs.size(); ++i)
+    { // query every container at the end
+      m.sw(i);
+      TreeH& h = *m.hs[i];
+      h.qValid();
+      if (h.d && h.looksTree()) h.battery(rng, false, 4);
+    }
+    qViewTree(m, false);
+  }
+}
+
+static void modeDCopies(size_t count, vt::Rng& rng)
+{
+  for (size_t k = 0; k < count; ++k)
+  {
+    Multi<DagH, DagObs> m;
+    m.hs.emplace_back(new DagH);
+    DagH& h0 = *m.hs[0];
+    h0.reset(true);
+    size_t n = 2 + rng.below(4);
+    for (size_t i = 0; i < n; ++i) h0.createNode();
+    for (size_t j = 0; j < n + 1; ++j)
+    {
+      size_t x = rng.below(n), y = rng.below(n);
+      if (x == y || (!F.dups && h0.related(x, y, true))) continue;
+      if (rng.chance(4, 5) && x > y) std::swap(x, y);
+      if (!F.dups && h0.related(x, y, true)) continue;
+      h0.addEdge(x, y, rng, true);
+    }
+    m.created.push_back(n);
+    if (rng.coin()) h0.qValid();
+    if (rng.coin()) h0.qRooted();
+    m.copyCtor(0);
+    if (rng.coin())
+    {
+      m.makeView(rng);
+      qViewDag(m, true);
+    }
+    for (size_t step = 0; step < 16; ++step)
+    {
+      size_t r = rng.below(12);
+      if (r == 0 && m.hs.size() < 3) m.copyCtor(rng.below(m.hs.size()));
+      else if (r == 1 && m.hs.size() >= 2)
+      {
+        size_t src = rng.below(m.hs.size()), dst = rng.below(m.hs.size());
+        if (src != dst) m.assign(src, dst);
+      }
+      else if (r == 2) qViewDag(m, false);
+      else if (r == 3)
+      {
+        editViaView(m, rng);
+        m.watchOthers();
+        qViewDag(m, false);
+      }
+      else if (r == 4 && !m.view)
+      {
+        m.makeView(rng);
+        qViewDag(m, true);
+      }
+      else
+      {
+        size_t i = rng.below(m.hs.size());
+        m.sw(i);
+        dhistStep(*m.hs[i], rng, m.created[i], 5);
+        m.watchOthers();
+      }
+    }
+    for (size_t i = 0; i < m.hs.size(); ++i)
+    {
+      m.sw(i);
+      m.hs[i]->battery();
+    }
+    qViewDag(m, false);
   }
 }
 
@@ -1491,6 +1827,8 @@ int main(int argc, char** argv)
   else if (mode == "rtrees") modeRTrees(n, static_cast<size_t>(vt::argInt(argc, argv, "--lo", 8)), static_cast<size_t>(vt::argInt(argc, argv, "--hi", 12)), rng);
   else if (mode == "hist") modeHist(n, static_cast<size_t>(vt::argInt(argc, argv, "--len", 40)), maxn, rng);
   else if (mode == "cachewalk") modeCacheWalk(n, rng);
+  else if (mode == "copies") modeCopies(n, rng);
+  else if (mode == "dcopies") modeDCopies(n, rng);
   else if (mode == "digraphs") modeDigraphs(maxn, static_cast<size_t>(vt::argInt(argc, argv, "--loops", 3)), rng);
   else if (mode == "dhist") modeDHist(n, static_cast<size_t>(vt::argInt(argc, argv, "--len", 40)), maxn, rng);
   else if (mode == "probe") modeProbe(vt::argStr(argc, argv, "--which", ""), rng);
